@@ -111,10 +111,33 @@ def subst_cases(run, which, n=None):
     return cases
 
 
+# Fragments ADDED after a random token (insertion stream): an extra alias, identifier, literal, list element or
+# parenthesised group.  Almost every insertion is rejected; what is accepted must keep the fragment.
+INSERTS = ["zq9", "AS zq9", "AS zq9 (zc1, zc2)", '"Zq 9"', 'AS "Zq 9"', "(zq9)", ", zq9", "424242", "'zq9lit'", ", 424242", "zq9.zq8", "AS zq9 AS zq8",
+           "zq9 zq8", "(424242)", "= zq9", "AS 'zq9lit'", "ON zq9 = zq8", "USING (zq9)", "IN (424242)", "NOT NULL", "DEFAULT 424242", "COMMENT 'zq9lit'",
+           "EXCEPT (zq9)", "EXCLUDE (zq9)", "IGNORE NULLS", "FILTER (WHERE zq9 > 424242)", "OVER (ORDER BY zq9)", "WITHIN GROUP (ORDER BY zq9)",
+           "ORDER BY zq9", "LIMIT 424242", "OFFSET 424242", "WHERE zq9 = 424242", "PARTITION (zq9)", "WITH (zq9 = 424242)", "COLLATE zq9", "AT TIME ZONE 'zq9lit'",
+           "START WITH zq9 = 424242", "CONNECT BY zq9 = PRIOR zq8", "HAVING zq9 > 424242", "GROUP BY zq9", "QUALIFY zq9 = 424242", "RETURNING zq9", "CASCADE", "IF EXISTS"]
+
+
+def insert_cases(run, n=None):
+    from corpus import corpus
+    rng = run.rng
+    n = n or (200000 if run.tier == "thorough" else 40000)
+    pool = corpus()
+    cases = []
+    for i in range(n):
+        x = rng.choice(pool)
+        d = "generic" if ("generic" in x["dialects"] and rng.random() < 0.25) else rng.choice(x["dialects"])
+        cases.append({"dialect": d, "sql": x["sql"], "expr": INSERTS[i % len(INSERTS)], "seed": rng.randrange(1 << 30),
+                      "unescape": rng.random() < 0.75, "trailing": rng.random() < 0.15, "insert": True, "stream": "insert"})
+    return cases
+
+
 def mutation_streams(run):
     """[(stream name, cases)] of all `rtx splice` streams."""
     return [("splice", splice_cases(run, splice_count(run))), ("subst-ident", subst_cases(run, "ident")),
-            ("subst-num", subst_cases(run, "num")), ("subst-str", subst_cases(run, "str"))]
+            ("subst-num", subst_cases(run, "num")), ("subst-str", subst_cases(run, "str")), ("insert", insert_cases(run))]
 
 
 def splice_count(run):
@@ -393,6 +416,7 @@ SITE_GROUPS = [
     (r"^SetNames\.", "SetNames"),
     (r"^column_position\.", "MySQLColumnPosition"),
     (r"^CopyIntoSnowflake", "CopyIntoSnowflake"),
+    (r"^CreateStage\.", "CreateStage-options"),
     (r"^Table\.(table_name|schema_name)", "SetExpr::Table"),
     (r"PGCustomBinaryOperator", "PGCustomBinaryOperator"),
 ]
@@ -528,7 +552,6 @@ def _prefix_pair_key(ctx):
 
 RULES = [
     ("datatype:custom-modifier-quotes", _custom_with_modifiers),
-    ("mysql-partition-list", _table_partitions),
     ("ShowVariable:non-word-tokens-skipped", _show_variable),
     ("ShowVariable:keyword-consumed-before-guard", _show_variable_kw),
     ("ColumnOption:keyword-consumed-before-guard", _column_option_kw),
@@ -569,7 +592,7 @@ def err_class(detail):
 def make_ctx(case, sk, kind, printed="", path=None, detail=None, ast=None, lits=None, lost=None, invented=None, kw=None):
     return {"d": case["dialect"], "sql": case.get("mutated") or case["sql"], "sk": sk, "kind": kind, "printed": printed or "",
             "path": path or "", "detail": detail or "", "ast": load_ast(ast) if isinstance(ast, str) else ast, "lits": lits or [],
-            "lost": lost or [], "invented": invented or [], "kw": kw or [], "unescape": case.get("unescape", True)}
+            "lost": lost or [], "invented": invented or [], "kw": kw or [], "unescape": case.get("unescape", True), "trailing": case.get("trailing", False)}
 
 
 def root_key(ctx, extra_rules=()):
@@ -584,7 +607,7 @@ def root_key(ctx, extra_rules=()):
     if pk:
         return pk
     cls = lit_classes(ctx["d"], ctx["lits"])
-    if cls and literal_involved(ctx):
+    if cls and (literal_involved(ctx) or neutral_passes(ctx)):
         return "literal:" + cls[0]
     for fn in KEY_RULES:
         try:
@@ -597,6 +620,24 @@ def root_key(ctx, extra_rules=()):
         if pred(ctx):
             return key
     return None
+
+
+_neutral_cache = {}
+
+
+def neutral_passes(ctx):
+    """Is the failure CAUSED by a literal of a known C06 class?  Decided on the implementation: the same text
+    with the payload of every string literal / quoted identifier made benign (rtx neutral) must pass both the
+    round-trip and the content check.  Only then may a failure that also shows other symptoms (tokens after an
+    unbalanced quote shift, so unrelated items look lost) be filed under the literal class."""
+    key = (ctx["d"], ctx["sql"], ctx["unescape"], ctx.get("trailing", False))
+    if key not in _neutral_cache:
+        try:
+            r = run_bin(PKG, ["neutral"], [{"dialect": ctx["d"], "sql": ctx["sql"], "unescape": ctx["unescape"], "trailing": ctx.get("trailing", False)}], pkg=PKG)[0]
+            _neutral_cache[key] = r.get("status") == "neutralised" and r.get("roundtrip") == "ok" and r.get("content") in ("ok", "exempt-copy-payload")
+        except Exception:
+            _neutral_cache[key] = False
+    return _neutral_cache[key]
 
 
 def literal_involved(ctx):
